@@ -22,6 +22,7 @@ type stream struct {
 	queue    *mb.MB[drpc.Message]
 	stats    streamStat
 	tags     []string
+	vf       verifStreamState
 }
 
 type peerMessage interface {
@@ -35,6 +36,7 @@ func (sr *stream) write(msg drpc.Message) (err error) {
 		cp.SetPeerId(sr.peerId)
 		msg = cp
 	}
+	defer verifWrite(sr, msg, &err)()
 	sr.stats.AddMessage(msg)
 	err = sr.queue.TryAdd(msg)
 	if err != nil {
@@ -72,17 +74,21 @@ func (sr *stream) writeLoop() {
 			}
 			return
 		}
+		verifWriter(sr, "take", msg, nil)
 		if err := sr.stream.MsgSend(msg, nil); err != nil {
+			verifWriter(sr, "sendErr", msg, err)
 			sr.l.Warn("msg send error", zap.Error(err))
 			sr.streamClose()
 			return
 		}
 		sr.stats.RemoveMessage(msg)
+		verifWriter(sr, "sent", msg, nil)
 	}
 }
 
 func (sr *stream) streamClose() {
 	if !sr.closed.Swap(true) {
+		verifClose(sr, "closeBegin")
 		_ = sr.queue.Close()
 		_ = sr.stream.Close()
 		sr.pool.removeStream(sr.streamId)
